@@ -23,6 +23,7 @@ func swarmFaults(k *K, allowLoss bool) FaultCfg {
 	f.Serve = k.C.Range(2, 8)
 	f.Refresh = k.C.Range(1, 6)
 	f.Tick = k.C.Range(1, 4)
+	f.Stream = k.C.Range(2, 8)
 	if k.C.Chance(2, 3) {
 		f.Reorder = k.C.Range(1, 6)
 	}
@@ -140,4 +141,15 @@ func checkKVReplica(k *K, i int, kv iface.KeyValueStore, where string) {
 			}
 		}
 	}
+}
+
+// transportOpt draws the direct-channel implementation of a run: the default pubsub-based
+// oneonone adapter or the libp2p-stream adapter over the stub host (kernel-chunked streams).
+func transportOpt(k *K) []PeerOpt {
+	if k.C.Chance(1, 2) {
+		k.W.Stat("transport:directchannel-streams")
+		return []PeerOpt{WithDirectChannelStreams()}
+	}
+	k.W.Stat("transport:oneonone")
+	return nil
 }
